@@ -25,7 +25,7 @@ import (
 	"github.com/theparanoids/ysshra/zzverifrt/vnet"
 )
 
-// servedConn returns a dial factory: every dialled connection is one net.Pipe whose server end is served by ONE
+// servedConn returns a dial factory: every dialled connection is one buffered in-memory pipe whose server end is served by ONE
 // yubiagent.ServeAgent call for the life of the connection (so per-connection state inside the serving loop is real).
 // The exchange is strictly request/response, hence deterministic although the server runs on its own goroutine.
 // A panic in the serving goroutine is captured, the connection is closed and the panic is re-raised in the caller.
@@ -44,7 +44,7 @@ func (sp *servedPeer) take() string {
 
 func servedConn(served yubiagent.YubiAgent, sp *servedPeer) func() (net.Conn, error) {
 	return func() (net.Conn, error) {
-		ce, se := net.Pipe()
+		ce, se := vnet.NewBlockingPipe("served")
 		go func() {
 			defer se.Close()
 			if p := ev.Guard(func() { yubiagent.ServeAgent(served, se) }); p != "" {
@@ -618,7 +618,15 @@ func c13RunOps(c *ev.Ctx, ops map[string]c13Op, names []string) {
 	for i, n := range names {
 		op := ops[n]
 		var msg string
-		p := ev.Guard(func() { msg = op.Run(cl, st) })
+		var p string
+		done := make(chan struct{})
+		go func() { p = ev.Guard(func() { msg = op.Run(cl, st) }); close(done) }()
+		select {
+		case <-done:
+		case <-time.After(60 * time.Second):
+			c.Violation("C13:operation-hangs:"+opClass(n), fmt.Sprintf("operation %s (position %d of %v) did not complete within 60 s: the client and the serving loop are waiting for each other", n, i, names), k)
+			return
+		}
 		if sp2 := sp.take(); sp2 != "" {
 			p = sp2
 		}
